@@ -2,6 +2,7 @@ import CollectionsC.Driver.Cmd
 import CollectionsC.Spec.MapSpec
 import CollectionsC.Model.HashTable
 import CollectionsC.Model.PHash
+import Std.Data.HashMap
 /-! Line-protocol driver for the hash-table model and the ideal map.  Also home of the pieces shared
 with the hash-set driver: the harness hash functions, the library's own hash functions (djb2,
 MurmurHash3 x86_32 and its pointer variant, transcribed so that the model can follow the real bucket
@@ -225,6 +226,35 @@ def pstep (cfg : HCfg) (isSet : Bool) (pm : Option PHash.PTable) (pit : Option P
         (some r.2.2.1, some r.2.2.2.1, some r.2.2.2.2)
     | _ => (some t, pit, none)
 
+/-- `model=off` sessions (tens of thousands of keys, hundreds of thousands of buckets: the list-based models cannot
+follow, a rehash alone is quadratic for them).  The driver answers `M ?` (no model line: L3 is not judged) and computes
+the ideal map's answers with a hash map: statuses and out-values of add / get / contains / remove / remove_all, END after
+exactly `size` iterator steps (which key a step yields is not predicted: `S ?`), full content on `observe`. -/
+structure Bulk where
+  map : Std.HashMap Nat Nat := {}
+  yielded : Nat := 0
+
+def bulkStep (isSet : Bool) (b : Bulk) (c : Cmd) : Bulk × String :=
+  let k := c.arg 0
+  match c.op with
+  | "new" => ({}, "st=0")
+  | "add" => ({ b with map := b.map.insert k (if isSet then 1 else c.arg 1) }, "st=0")
+  | "get" => (b, match b.map[k]? with | some v => s!"st=0 out={v}" | none => "st=6")
+  | "contains_key" | "contains" => (b, s!"st=- out={if b.map.contains k then 1 else 0}")
+  | "remove" =>
+    (match b.map[k]? with
+     | some v => ({ b with map := b.map.erase k }, if isSet then "st=0" else s!"st=0 out={v}")
+     | none => (b, if isSet then "st=7" else "st=6"))
+  | "remove_all" => ({ b with map := {} }, "st=-")
+  | "it_new" => ({ b with yielded := 0 }, "st=-")
+  | "it_next" => if b.yielded < b.map.size then ({ b with yielded := b.yielded + 1 }, "?") else (b, "st=9")
+  | "observe" =>
+    let ps := (b.map.toList.toArray.qsort (fun a b => a.1 < b.1)).toList
+    (b, if isSet then s!"st=- size={b.map.size} elems={fmtList (ps.map (·.1))}"
+        else s!"st=- size={b.map.size} keys={fmtList (ps.map (·.1))} vals={fmtList (ps.map (·.2))}")
+  | "destroy" => (b, "st=-")
+  | _ => (b, "?")
+
 /-- the representation invariant `HashTable.Inv` evaluated bucket by bucket in one pass (the `Decidable` instance of
 `Inv` indexes the bucket list once per slot, which is quadratic in the capacity); used on the `observe` lines of
 `phys=sum` sessions, where tables have thousands of slots -/
@@ -300,6 +330,8 @@ structure Sess where
   sumLine : Bool := false
   /-- keys inserted through the table while the iterator session is open: the iterator may or may not reach them -/
   smaybe : List Spec.Key := []
+  /-- `model=off` session -/
+  bulk : Option Bulk := none
 
 def obsM (s : Sess) : String :=
   if s.quiet then "" else
@@ -334,7 +366,7 @@ def insertSlot {α : Type} (ds : List (Nat × α)) (slot : Nat) (a : α) : List 
 def slotOf (c : Cmd) : Nat := c.nat "to" (c.nat "o" 0)
 
 /-- returns the new session, the spec line and the model line -/
-def step (s : Sess) (c : Cmd) : Sess × String × String :=
+def stepModel (s : Sess) (c : Cmd) : Sess × String × String :=
   let m := s.mem.begin c.sched
   let isNew := c.op == "new" || c.op == "new_default"
   let sparse := if isNew then c.str "obs" == some "sparse" else s.sparse
@@ -459,5 +491,13 @@ def step (s : Sess) (c : Cmd) : Sess × String × String :=
     | "observe" => lines { s with mem := m } "st=-" "st=-"
     | _ => lines { s with mem := m } "st=- badop" "st=- badop"
   | _, _ => lines { s with mem := m } "st=- nosession" "st=- nosession"
+
+def step (s : Sess) (c : Cmd) : Sess × String × String :=
+  let bulk := if c.op == "new" || c.op == "new_default" then (if c.str "model" == some "off" then some {} else none) else s.bulk
+  match bulk with
+  | some b =>
+    let (b', body) := bulkStep false b c
+    ({ bulk := if c.op == "destroy" then none else some b' }, if body == "?" then "S ?" else s!"S {body}", "M ?")
+  | none => stepModel { s with bulk := none } c
 
 end CC.Driver.HashTableD
